@@ -17,7 +17,7 @@ transaction coordinator, under scripted or seeded fault fates.  Returned (JSON-a
   group_offsets  committed offsets of the consumer group used with send_offsets_to_transaction
 
 Program ops: "begin", "send:<p>", "burst:<p>:<n>" (n concurrent send() calls), "offsets:<o>", "commit", "abort",
-"ctx_ok:<p>", "ctx_exc:<p>", "sleep:<s>", "replace" (start instance B with the same transactional id; later ops with
+"ctx_ok:<p>", "ctx_exc:<p>", "ctx_slow:<p>" (fire-and-forget send, body runs 0.6 s more), "sleep:<s>", "replace" (start instance B with the same transactional id; later ops with
 prefix "B." go to it, unprefixed ones to A), "kill" (kill -9 of instance A).
 Partition "u" is a partition of an unauthorized topic (TopicAuthorizationFailed at AddPartitionsToTxn).
 """
@@ -214,7 +214,7 @@ def run_history(P):
                             await prod.abort_transaction()
                             rec["finished"] = "abort"
                         in_txn[who] = None
-                    elif name in ("ctx_ok", "ctx_exc"):
+                    elif name in ("ctx_ok", "ctx_exc", "ctx_slow"):
                         async with prod.transaction():
                             txn_index[who] += 1
                             in_txn[who] = txn_index[who]
@@ -222,6 +222,9 @@ def run_history(P):
                             rec["uid"] = await do_send(who, args[0], in_txn[who])
                             if name == "ctx_exc":
                                 raise RuntimeError("application error inside the transaction")
+                            if name == "ctx_slow":
+                                # fire-and-forget send, the body goes on for a while (errors land while it runs)
+                                await asyncio.sleep(0.6)
                         in_txn[who] = None
                     elif name == "sleep":
                         await asyncio.sleep(float(args[0]))
@@ -247,9 +250,7 @@ def run_history(P):
                 except BaseException as e:  # noqa: BLE001
                     rec["outcome"] = "exc:" + type(e).__name__
                     rec["msg"] = str(e)[:160]
-                    if name in ("ctx_exc", "ctx_ok") or (name in ("commit", "abort") and False):
-                        pass
-                if name in ("ctx_ok", "ctx_exc") and rec["outcome"] != "ok":
+                if name in ("ctx_ok", "ctx_exc", "ctx_slow") and rec["outcome"] != "ok":
                     # the context manager left the transaction one way or the other unless begin itself failed
                     in_txn[who] = None if rec.get("txn") else in_txn[who]
                 rec["t_ret"] = round(loop.time() - t0, 6)
